@@ -134,6 +134,6 @@ func cmdRun(args []string) int {
 }
 
 func defaultOnce() []string {
-	return []string{"unicode", "unicode/utf8", "strconv", "strings", "bytes", "io", "sort", "math", "math/bits", "path", "internal/bytealg", "internal/itoa"}
+	return []string{"unicode", "unicode/utf8", "strconv", "strings", "bytes", "io", "sort", "math", "math/bits", "path", "internal/bytealg", "internal/itoa", "time"}
 }
 
